@@ -192,6 +192,8 @@ mod run {
         pub gap_ms: u64,
         /// 0: successors are started when the predecessor answers on the control socket; 1: as soon as `execute` returned
         pub eager: bool,
+        /// a failed bind() of a successor is reported as it is (after two attempts on other ports it is not a collision)
+        pub last_attempt: bool,
     }
 
     struct Instance {
@@ -418,7 +420,19 @@ mod run {
             }
             ctx.set_free();
             kvarn::verif::set_hook(None);
-            return X::L(vec![X::N(96), X::N(4)]);
+            let code = if instances[0].mgr.is_none() && !p.last_attempt { 5 } else { 4 };
+            for inst in &mut instances {
+                if let Some(m) = &inst.mgr {
+                    m.shutdown();
+                }
+                if let Some(s) = inst.stop.take() {
+                    let _ = s.send(());
+                }
+            }
+            stop_clients.store(true, Ordering::SeqCst);
+            let _ = std::fs::remove_file(&path);
+            // 94: the first instance does not come up (execute() does not return or nobody answers on the control socket)
+            return X::L(vec![X::N(if code == 5 { 96 } else { 94 }), X::N(code)]);
         }
         // fast clients: one thread per port, back to back
         for (ix, port) in ports.iter().enumerate() {
@@ -458,12 +472,12 @@ mod run {
             instances.push(inst);
             // the predecessor's wait() resolves within a bound (slow handlers + margin)
             let pred = &instances[h - 1];
-            let waited = wait_until(&|| pred.waited.load(Ordering::SeqCst), Duration::from_millis(p.slow_ms + 10_000));
+            let waited = wait_until(&|| pred.waited.load(Ordering::SeqCst), Duration::from_millis(if executed { p.slow_ms + 10_000 } else { 500 }));
             let t_wait = ctx.now();
             let served = if p.eager && h < p.handovers {
                 true
             } else {
-                wait_until(&|| serving.load(Ordering::SeqCst) == h as u64, Duration::from_secs(10))
+                wait_until(&|| serving.load(Ordering::SeqCst) == h as u64, Duration::from_secs(if executed { 10 } else { 1 }))
             };
             timings.push(X::L(vec![
                 X::N(u128::from(t_start)),
@@ -521,7 +535,7 @@ mod run {
         let _ = std::fs::remove_file(&path);
         // after everything is down the ports refuse (sanity of the client's "refused" detection)
         let refuses_after = ports.iter().all(|p| port_is_free(*p));
-        if foreign {
+        if foreign && !p.last_attempt {
             return X::L(vec![X::N(96), X::N(5)]);
         }
 
@@ -580,8 +594,11 @@ pub fn run(x: &X) -> X {
     if n[0] == 0 || n[0] > 4 || n[1] == 0 || n[1] > 4 || n[2] > 1 || n[5] > 2000 || n[6] > 2000 || n[7] > 2000 || n[8] > 5000 || n[9] > 8 || n[10] > 1000 {
         return X::bad();
     }
-    run::run(&run::Params {
-        nports: n[0] as usize,
+    let mut out = X::bad();
+    for attempt in 0..2 {
+        out = run::run(&run::Params {
+            last_attempt: attempt == 1,
+            nports: n[0] as usize,
         handovers: n[1] as usize,
         flavour: n[2] as u8,
         seed: n[3] as u64,
@@ -592,8 +609,13 @@ pub fn run(x: &X) -> X {
         slow_ms: n[8] as u64,
         nslow: n[9] as usize,
         gap_ms: n[10] as u64,
-        eager: n[11] == 1,
-    })
+            eager: n[11] == 1,
+        });
+        if !matches!(out.as_l(), Some([X::N(96), X::N(5)])) {
+            break;
+        }
+    }
+    out
 }
 #[cfg(not(feature = "hooks"))]
 pub fn run(_x: &X) -> X {
